@@ -27,8 +27,8 @@ func NewH264Packetizer(meta *codec.VideoMeta, tsframeWriter FrameWriter) Packeti
 func (h264p *h264Packetizer) Packetize(frame *codec.Frame) error {
 	nalType := frame.Payload[0] & 0x1F
 
-	dts := frame.Dts * 90000 / int64(time.Second) // 90000Hz
-	pts := frame.Pts * 90000 / int64(time.Second) // 90000Hz
+	dts := frame.Dts * 9 / int64(time.Second/10000) // 90000Hz（先约分：ns*90000 在约 28.5 小时后溢出 int64）
+	pts := frame.Pts * 9 / int64(time.Second/10000) // 90000Hz（先约分：ns*90000 在约 28.5 小时后溢出 int64）
 	// set fields
 	tsframe := &Frame{
 		Pid:      tsVideoPid,
